@@ -168,6 +168,10 @@ func (g *histGen) genCopyStmt() (*StmtProg, []pgwire.FMsg) {
 			seq = append(seq, pgwire.FMsg{K: "d", Data: r.Bytes(r.PickInt(0, 1, 5, 40, 300))})
 		}
 	}
+	if (g.o.oversized || g.o.sizes) && g.m.Limit < 1<<20 && r.Chance(1, 4) {
+		// an oversized message in the middle of the COPY (skipped in full, aborts the COPY)
+		seq = append(seq, pgwire.FMsg{K: "typed", T: byte(r.Pick("d", "d", "f", "Q")[0]), Pad: int64(g.m.Limit) + int64(r.PickInt(1, 100, g.m.Limit+3)), PadPat: []byte("overwrite-attempt-in-copy ")})
+	}
 	switch r.Intn(6) {
 	case 0:
 		seq = append(seq, pgwire.FMsg{K: "f", S1: "client gives up " + r.Ident(3)})
@@ -357,7 +361,14 @@ func (g *histGen) unit() {
 			sp, seq := g.genCopyStmt()
 			g.c.Programs[key] = &Program{Stmts: []*StmtProg{sp}}
 			if g.o.extended && r.Chance(1, 3) {
-				ms := []pgwire.FMsg{{K: "P", S1: "", S2: key}, {K: "B", S1: "", S2: ""}, {K: "E", S1: ""}}
+				bind := pgwire.FMsg{K: "B", S1: "", S2: ""}
+				switch r.Intn(4) {
+				case 0:
+					bind.RFmt = []int16{0} // result-format codes of the Bind have no say in the COPY format
+				case 1:
+					bind.RFmt = []int16{1}
+				}
+				ms := []pgwire.FMsg{{K: "P", S1: "", S2: key}, bind, {K: "E", S1: ""}}
 				ms = append(ms, seq...)
 				ms = append(ms, pgwire.FMsg{K: "S"})
 				g.add(ms...)
@@ -463,7 +474,7 @@ func (g *histGen) unit() {
 				}
 				sp.Ops = keep
 				g.c.Programs[key] = &Program{Stmts: []*StmtProg{sp}}
-				q := key + " " + r.Pick("$1", "$5", "$2 $1", "$3 $3 $1", "? ? ?", "$300", "$40000", "$65535", "$70000 $2", "$0", "$99999999999999999999", "x$1y ?")
+				q := key + " " + r.Pick("$1", "$5", "$2 $1", "$3 $3 $1", "? ? ?", "$300", "$40000", "$65535", "$70000 $2", "$0", "$99999999999999999999", "x$1y ?", "$65535 ?", "$65535, ?, ?", "? $65535 ?", "$65534 ? ?")
 				sn := g.name(nil, "s")
 				g.add(pgwire.FMsg{K: "P", S1: sn, S2: q}, pgwire.FMsg{K: "D", Sub: 'S', S1: sn}, pgwire.FMsg{K: "S"})
 			}})
